@@ -14,6 +14,23 @@ pub fn vec_znx_normalize_tmp_bytes(n: usize) -> usize {
     3 * n * size_of::<i64>()
 }
 
+/// Propagates `carry` through `gap` all-zero limbs, i.e. limbs that lie between the
+/// discarded input limbs and the least significant limb of the output when the
+/// shift exceeds the output precision. `zero` is a work buffer of the same length as `carry`.
+pub(crate) fn znx_propagate_carry_through_gap<ZNXARI>(base2k: usize, gap: usize, zero: &mut [i64], carry: &mut [i64])
+where
+    ZNXARI: ZnxZero + ZnxNormalizeMiddleStepCarryOnly,
+{
+    if gap == 0 {
+        return;
+    }
+    ZNXARI::znx_zero(zero);
+    // An i64 carry reaches its fixed point after at most 64 steps.
+    for _ in 0..gap.min(64) {
+        ZNXARI::znx_normalize_middle_step_carry_only(base2k, 0, zero, carry);
+    }
+}
+
 #[allow(clippy::too_many_arguments)]
 pub fn vec_znx_normalize<R, A, ZNXARI>(
     res: &mut R,
@@ -78,7 +95,7 @@ fn vec_znx_normalize_inter_base2k<R, A, ZNXARI>(
     let res_size: usize = res.size();
     let a_size: usize = a.size();
 
-    let (carry, _) = carry.split_at_mut(n);
+    let (carry, zero) = carry.split_at_mut(n);
 
     let mut lsh: i64 = res_offset % base2k as i64;
     let mut limbs_offset: i64 = res_offset / base2k as i64;
@@ -130,6 +147,13 @@ fn vec_znx_normalize_inter_base2k<R, A, ZNXARI>(
             a.at(a_col, a_start - j - 1),
             carry,
         );
+    }
+
+    // If the offset is negative and exceeds the precision of res, the carry first
+    // crosses the limbs that lie between the discarded limbs of a and res.
+    if limbs_offset < 0 {
+        let gap: usize = ((-limbs_offset) as usize).saturating_sub(res_size);
+        znx_propagate_carry_through_gap::<ZNXARI>(base2k, gap, &mut zero[..n], carry);
     }
 
     // Propagates the carry over the non-overlapping limbs between res and a
@@ -389,6 +413,20 @@ fn vec_znx_normalize_cross_base2k<R, A, ZNXARI>(
         // the shifted reconstruction of `a` in `res_base2k` along with
         // the carry of a[0].
         let carry_to_use = if a_start == a_end { a_carry } else { res_carry };
+
+        // The carry of `a` is expressed in units of 2^-(-limbs_offset * a_base2k). If this is
+        // finer than the precision of `res`, it is first rounded to the precision of `res`.
+        if a_start == a_end && limbs_offset < 0 {
+            let mut gap_bits: usize = ((-limbs_offset) as usize * a_base2k).saturating_sub(res_tot_bits).min(128);
+            if gap_bits != 0 {
+                ZNXARI::znx_zero(a_norm);
+            }
+            while gap_bits != 0 {
+                let take: usize = gap_bits.min(32);
+                ZNXARI::znx_normalize_middle_step_carry_only(take, 0, a_norm, carry_to_use);
+                gap_bits -= take;
+            }
+        }
 
         for j in 0..res_end {
             if j == res_end - 1 {
